@@ -23,6 +23,10 @@ TESTS = {
                                 functions=['tarpc/src/client.rs::RequestDispatch, Channel::call, ResponseGuard (through the public API, hand-written gated transport)'],
                                 bound='up to 3 calls x 4 fates (answered, abandoned queued, abandoned after transmission, kept) x all fate orders x a dispatch poll or not after each step x capacity 1|2 x readiness gated|not x handles dropped|kept x flush immediate|at the second attempt (401664 scenarios); oracles on the wire log (C01 routing, C03 cancel rules, C07 deadline forwarded, C10 close rules, C11 in-flight maximum, C14 sink contract incl. never idle with unflushed items, C18 per-call trace contexts on requests and cancellations)',
                                 why='replay search: source of concrete failing inputs when the deductive check is undecided (code rewritten into a shape the contracts cannot be checked against) or fails'),
+    'client_backpressure_bounded': dict(file='client_backpressure_bounded', fn='abandoned_calls_under_back_pressure',
+                                        functions=['tarpc/src/client.rs::new, Channel::call, ResponseGuard, RequestDispatch; tarpc/src/cancellations.rs (through the public API, in-memory transport, dispatch spawned on a current-thread runtime)'],
+                                        bound='in-flight maximum 1..=2 x request buffer 1..=2 x 0..=3 calls blocked in front of the buffer x every call abandoned, in issue | reverse order x dispatch running | not between abandonments (64 scenarios); oracles: every transmitted request is followed by exactly one cancellation, none for a request never transmitted, a later call is transmitted',
+                                        why='replay search: abandonment under back-pressure (calls transmitted, buffered and blocked at once), which the 3-call wire search does not reach; source of concrete failing inputs when the deductive check is undecided or fails'),
     'server_wire_bounded': dict(file='server_wire_bounded', fn='server_wire_scripts',
                                 functions=['tarpc/src/server.rs::BaseChannel, Requests, InFlightRequest::execute; tarpc/src/server/limits/requests_per_channel.rs::MaxRequests (through the public API, hand-written buffering transport)'],
                                 bound='peer scripts of <= 4 messages over {Req 7, Req 8, Cancel 7, Cancel 8} x a channel poll or not after each x handler release order x handlers finishing before the last message or at the end x sink gated|not x limit none|1 x half-close|not (149760 scenarios); oracles on the wire, handler invocation counts, flush state, in_flight_requests()',
@@ -89,8 +93,8 @@ TESTS = {
                                 why='concrete-input companion of the Verus proof of Drop for server::InFlightRequests (unit server, rule R17): exercises the real HashMap::values and AbortHandle, which the proof models (A-hashmap-iter, A-abortable)'),
     'retry_bounded': dict(file='retry_bounded', fn='retry_exhaustive_up_to_max_attempts',
                           functions=['tarpc/src/client/stub/retry.rs::Retry::call'],
-                          bound='exhaustive over all policy-decision and ok/err result sequences of up to 5 attempts',
-                          why='Kani 0.68 ICE (intrinsics.rs:243) on the tracing::trace! in the loop body; Verus: async trait fn + continue in for'),
+                          bound='exhaustive over all policy-decision and ok/err result sequences of up to 5 attempts, each under a live and under an elapsed caller deadline; oracles: attempt numbers, same request, policy sees each result, last result returned, every attempt made under the caller\'s own context (deadline and trace context unchanged)',
+                          why='concrete-input companion of the Verus proof of Retry::call (unit retry): runs the real async trait call and the real clock, which the proof models'),
 }
 
 
